@@ -99,6 +99,9 @@ type Run struct {
 	funcsHit map[string]bool
 	autoAdv int
 	selectForks int
+	pools map[*Value][]Value
+	allSchedules bool
+	schedForks int
 	mapOrderAll bool
 }
 
@@ -112,7 +115,7 @@ func (m *Machine) newRun(prefix []int64) *Run {
 		reached: map[string]bool{}, assertIDs: map[string]int{},
 		locks: map[*Value]*lockState{}, conds: map[*Value]*condState{}, wgs: map[*Value]*wgState{}, onces: map[*Value]*onceState{},
 		strIDs: map[string]uint64{}, strByID: map[uint64]string{}, opaqueG: map[string]*Value{},
-		funcsHit: map[string]bool{},
+		funcsHit: map[string]bool{}, pools: map[*Value][]Value{},
 	}
 	r.nowT = mkBV(64, 1_000_000_000_000) // virtual clock, ns
 	r.mapOrderAll = m.opts.AllMapOrders
